@@ -257,7 +257,7 @@ impl World {
                     edges[s].take().map(|cc| (cc, KEY_SLOT | s as u32))
                 };
                 if let Some((cc, key)) = taken {
-                    let t = self.m.borrow_mut().objs[id as usize].edges.remove(&key).expect("mirror edge");
+                    let t = self.m.borrow_mut().edge_remove(id, key).expect("mirror edge");
                     self.stats.borrow_mut().bump("finalizer_dropped_field");
                     self.drop_cc(cc, t, "a field cleared by a finalizer");
                 }
